@@ -128,10 +128,10 @@ class SmtLibSolver(Solver): # TODO this class is defined twice in pysmt. Here an
         self._debug("Read: %s", lst)
         return lst
 
-    def _declare_sort(self, sort):
-        cmd = SmtLibCommand(smtcmd.DECLARE_SORT, [sort])
+    def _declare_sort(self, sort_decl):
+        cmd = SmtLibCommand(smtcmd.DECLARE_SORT, [sort_decl])
         self._send_silent_command(cmd)
-        self.declared_sorts[-1].add(sort)
+        self.declared_sorts[-1].add(sort_decl)
 
     def _declare_variable(self, symbol):
         cmd = SmtLibCommand(smtcmd.DECLARE_FUN, [symbol])
@@ -172,8 +172,9 @@ class SmtLibSolver(Solver): # TODO this class is defined twice in pysmt. Here an
         formula = formula.simplify()
         sorts = self.to.get_types(formula, custom_only=True)
         for s in sorts:
-            if all(s not in ds for ds in self.declared_sorts):
-                self._declare_sort(s)
+            # All the instances of a parametric sort share one declaration
+            if all(s.decl not in ds for ds in self.declared_sorts):
+                self._declare_sort(s.decl)
         deps = formula.get_free_variables()
         for d in deps:
             if all(d not in dv for dv in self.declared_vars):
